@@ -17,10 +17,13 @@ Definition dump_rows (rows : list (list (option (nat * citem)))) : D :=
                                         end) row)) rows).
 Definition dump_table (t : table) : D :=
   DL [DS (t_name t); dump_rows (t_rows t); DL (map DS (t_index t)); DL (map DS (t_columns t)); DS (t_title t)].
-(** get_class_constraints_duals() after the harness tagged the p-th class constraint with dual value p *)
+(** get_class_constraints_duals() after the harness stored, as dual value of the p-th class constraint, the tag
+    [dual_tag p] = -1/4, 3/4, -5/4, 7/4, ... : both signs, pairwise distinct, never 0, on every table (the
+    accessor must be the identity on whatever number the solver stored, equalities have sign-free multipliers) *)
+Definition dual_tag (p : nat) : Q :=
+  ((if Nat.even p then (-1)%Z else 1%Z) * (2 * Z.of_nat p + 1) # 4)%Q.
 Definition dump_duals (t : table) : D :=
-  DL [DS (t_name t);
-      DL (map (fun row => DL (map DQ row)) (duals_table (fun p => inject_Z (Z.of_nat p)) t))].
+  DL [DS (t_name t); DL (map (fun row => DL (map DQ row)) (duals_table dual_tag t))].
 
 Definition dump_genout (o : genout) : D :=
   DL [DL (map dump_citem (g_cons o));
